@@ -12,7 +12,7 @@ import (
 )
 
 func init() {
-	props["C13"] = &propDef{extraPkgs: []string{jsonPatchPkg}, run: runC13, explanation: "Partial ('only if' direction). Decided statically on the patch validators: (K1) the numeric limits and the id pattern — len(id) > 50 rejects, len(service type) > 30 rejects, purposes longer than the 5-entry purpose table reject, ids must match the regexp literal ^[A-Za-z0-9_-]+$ compiled once; (T1) the key-type × purpose matrix extracted from the four package-level literals equals the documented matrix and the purpose table holds the five document.KeyPurpose* constants; (T2) the member-name sets of a key (required, optional, one-of) and of a replace document; (U1) every for-all loop in the validator packages rejects only inside its body (an accepting return inside such a loop validates only a prefix); (G1) per action, success lies behind each documented check for every element (for-all form through helper boundaries): array presence, id rules, duplicate ids, member rule, purposes rule, type/purpose rule, JWK rule, service id/type/endpoint rules with URI validity for a string endpoint and for every string entry of a list endpoint, also-known-as URI parse and uniqueness, replace member set, original-document id/context refusal. Not decided: the 'if' direction; what net/url accepts; JWK well-formedness beyond the presence checks. (U2) every seen-set is searched with the key expression it is filled with. Presence of a key member is tested by comma-ok lookups only; in JWK.Validate each member is demanded only of the key type it belongs to. ParsePublicKeys / ParseServices leave their entry loop only at its end. Closed set of refusals of JWK.Validate (exact: member M is empty); accessor hands back the patch's own list; validators test the payload as the document package decodes it."}
+	props["C13"] = &propDef{extraPkgs: []string{jsonPatchPkg}, run: runC13, explanation: "Partial ('only if' direction). Decided statically on the patch validators: (K1) the numeric limits and the id pattern — len(id) > 50 rejects, len(service type) > 30 rejects, purposes longer than the 5-entry purpose table reject, ids must match the regexp literal ^[A-Za-z0-9_-]+$ compiled once; (T1) the key-type × purpose matrix extracted from the four package-level literals equals the documented matrix and the purpose table holds the five document.KeyPurpose* constants; (T2) the member-name sets of a key (required, optional, one-of) and of a replace document; (U1) every for-all loop in the validator packages rejects only inside its body (an accepting return inside such a loop validates only a prefix); (G1) per action, success lies behind each documented check for every element (for-all form through helper boundaries): array presence, id rules, duplicate ids, member rule, purposes rule, type/purpose rule, JWK rule, service id/type/endpoint rules with URI validity for a string endpoint and for every string entry of a list endpoint, also-known-as URI parse and uniqueness, replace member set, original-document id/context refusal. Not decided: the 'if' direction; what net/url accepts; JWK well-formedness beyond the presence checks. (U2) every seen-set is searched with the key expression it is filled with. Presence of a key member is tested by comma-ok lookups only; in JWK.Validate each member is demanded only of the key type it belongs to. ParsePublicKeys / ParseServices leave their entry loop only at its end. Closed set of refusals of JWK.Validate (exact: member M is empty); accessor hands back the patch's own list; validators test the payload as the document package decodes it. Replace: the document's size is no reason to refuse; JSON patch: 'path' and 'from' are judged one at a time."}
 }
 
 func constStringsOfAlloc(c *Ctx, a *ssa.Alloc) []string {
@@ -75,6 +75,7 @@ func keysOf(m map[string]string) []string {
 }
 
 func runC13(c *Ctx) {
+	c.validatorNoForeignRefusalsRule("C13.G1")
 	// values are named after the expression that produced them, also when an unexported helper with one success exit
 	// (a parsing phase) stands between the producer and the use
 	c.inlineHelpers = true
@@ -388,7 +389,7 @@ func runC13(c *Ctx) {
 	c.Assume("net/url.ParseRequestURI / url.Parse decide URI validity; the 'if' direction (every conforming patch is accepted) is not decided")
 	// "ietf-json-patch operations may not touch keys or services": the pointer rules of the JSON-patch validator (C11) are
 	// part of which patches are accepted
-	runC11(c)
+	c.apart(runC11)
 }
 
 // setOps collects the key expressions a local map is searched with and filled with: directly, under a named type,
@@ -615,8 +616,17 @@ func (c *Ctx) keyRules(key string, entry *ssa.Function, K pathPred, idRules func
 				return true
 			}
 			// chained form allowedKeyTypes[purpose][type]: an unknown purpose yields a nil map in which nothing is found
-			in, isIn := lk.X.(*ssa.Lookup)
-			return isIn && !in.CommaOk && cc.Path(in.X, env) == "global:"+pPV+".allowedKeyTypes" && purpElem(cc.Path(in.Index, env))
+			if in, isIn := lk.X.(*ssa.Lookup); isIn && !in.CommaOk && cc.Path(in.X, env) == "global:"+pPV+".allowedKeyTypes" && purpElem(cc.Path(in.Index, env)) {
+				return true
+			}
+			// (the same through a membership accessor of the inner set: the set it is handed is that plain lookup)
+			if _, isPar := lk.X.(*ssa.Parameter); isPar {
+				pre := "global:" + pPV + ".allowedKeyTypes["
+				if p := cc.Path(lk.X, env); strings.HasPrefix(p, pre) && strings.HasSuffix(p, "]") && purpElem(p[len(pre):len(p)-1]) {
+					return true
+				}
+			}
+			return false
 		}})
 		ok2, _, n2 := cc.GuardLoop(g, genv, &GCheck{Name: "admitted[type] ok", NoDescend: true, MatchOK: func(cc *Ctx, v ssa.Value, env Env) bool {
 			lk, isL := v.(*ssa.Lookup)
@@ -941,4 +951,45 @@ func (c *Ctx) jwkValidateRules(rule, key string, f *ssa.Function, member func(st
 		ok, w, _ := c.Guard(f, nil, notRSA, emptyTest(m))
 		c.Check(rule, key+":"+strings.ToLower(m)+"-demanded-of-rsa-only", ok, f.Pos(), m+` is tested only on the paths where kty == "RSA"`, w...)
 	}
+}
+
+// validatorNoForeignRefusalsRule: two things the validators do not refuse, because the patches the constructors build
+// from valid input have them: (a) a replace document without members — the document map's size is no reason to say no;
+// (b) a move / copy whose pointers resemble each other — the JSON-patch validator judges "path" and "from" one at a
+// time (each against the protected members), never against each other (telling "/a" inside "/ab" from "/a/b" needs the
+// reference tokens; the composer's copy guard does that, on tokens).
+func (c *Ctx) validatorNoForeignRefusalsRule(rule string) {
+	rv := c.Method(pPV, "ReplaceValidator", "Validate")
+	jv := c.Method(pPV, "JSONValidator", "Validate")
+	if rv == nil || jv == nil {
+		c.Unresolved(rule, "ReplaceValidator.Validate / JSONValidator.Validate")
+		return
+	}
+	var bad []string
+	reasons := c.rejectionReasons(rv, nil, false, 0)
+	for _, r := range reasons {
+		if strings.Contains(r, "len((patch.Patch).GetValue($1)#0.(map[string]interface{})#0)") {
+			bad = append(bad, r)
+		}
+	}
+	c.Check(rule, "replace:document:size-is-no-reason-to-refuse", len(reasons) >= 10 && len(bad) == 0, rv.Pos(), fmt.Sprintf("%d ways the replace validator says no; about the number of members of the document itself: %v", len(reasons), bad))
+	var pairs []string
+	n := 0
+	for _, g := range c.reachableModuleFuncs([]*ssa.Function{jv}) {
+		if pkgPathOf(g) != modPkg+pPV {
+			continue
+		}
+		n++
+		forEachInstr(g, func(in ssa.Instruction) {
+			iff, ok := in.(*ssa.If)
+			if !ok {
+				return
+			}
+			p := c.Path(iff.Cond, nil)
+			if strings.Contains(p, `"from"`) && strings.Contains(p, `"path"`) {
+				pairs = append(pairs, c.pos(iff.Pos())+": "+short(g.String())+" decides on "+p)
+			}
+		})
+	}
+	c.Check(rule, "json-patch:pointers-judged-one-at-a-time", n >= 2 && len(pairs) == 0, jv.Pos(), fmt.Sprintf("%d functions of the JSON-patch validator; none branches on a condition over both \"path\" and \"from\"", n), pairs...)
 }
